@@ -7,6 +7,19 @@ _A_NOTE = ('Trusted: CrossHair 0.0.110 proxy semantics and path pruning, z3 5.1.
            'before a VIOLATION is printed.')
 
 CLAIMS = {
+    'C05': dict(
+        engine='A-crosshair',
+        technique='bounded symbolic execution of the real code (CrossHair + z3) with the failing node as a symbolic crash point',
+        text=('For every 3-node DAG of the family (child targets and the failing node solver-enumerated), 9 exception '
+              'class shapes (plain, KeyError, custom __init__, __str__ override, __slots__, un-subclassable class, '
+              'BaseException subclass, empty message, multiple inheritance), 3 diagnostic-formatting situations '
+              '(normal, argument whose repr raises, unset tagged argument whose tag cannot be formatted), single and '
+              'repeated failure: the escaping exception is an instance of the original class, its text starts with '
+              'the original text, it names a path that an independent walker resolves to the failing Buildable, '
+              'nothing is invoked after the failing callable, the configuration is unchanged, the next build gives '
+              'the healthy result; fdl.build from inside a callable being built is rejected and the guard is released '
+              'afterwards. Two listed known findings (path clause only).'),
+        note=_A_NOTE + ' Leaves are concrete (the formatted diagnostic is the subject). CrossHair bypasses lru_cache, so the proxy class is rebuilt per failure.'),
     'C16': dict(
         engine='A-crosshair',
         technique='bounded symbolic execution of the real code (CrossHair + z3); inductive-step history invariants after every prefix',
